@@ -550,6 +550,7 @@ fn rand_text(rng: &mut Rng) -> String {
 fn rand_f32(rng: &mut Rng) -> f32 {
     match rng.below(4) {
         0 => rng.range(-100000, 100000) as f32,
+        1 if rng.coin() => *rng.pick(&[0.1f32, 0.3, 16.16, 1.0e10, -2.5, 1.5]),
         1 => *rng.pick(&[0.0f32, -0.0, 1.5, f32::NAN, f32::INFINITY, f32::NEG_INFINITY, f32::MAX, f32::MIN_POSITIVE, 16777216.0, 16777218.0]),
         _ => f32::from_bits(rng.next_u64() as u32),
     }
@@ -557,6 +558,7 @@ fn rand_f32(rng: &mut Rng) -> f32 {
 fn rand_f64(rng: &mut Rng) -> f64 {
     match rng.below(4) {
         0 => rng.range(-100000, 100000) as f64,
+        1 if rng.coin() => *rng.pick(&[0.1f64, 0.3, 16.16, 1e21, 1e-7, -2.5, 1.5]),
         1 => *rng.pick(&[0.0f64, -0.0, 1.5, f64::NAN, f64::INFINITY, f64::MAX, 9007199254740992.0, 9007199254740994.0, 1e300, -2.5e-300]),
         _ => f64::from_bits(rng.next_u64()),
     }
